@@ -29,6 +29,7 @@ from Pyro5.callcontext import current_context  # noqa: E402
 
 from . import sched as S  # noqa: E402
 from . import net as N  # noqa: E402
+from . import marshalguard  # noqa: E402
 
 
 class SeamEscape(Exception):
@@ -155,6 +156,7 @@ def install(sched, net, uuid_seed=0, line_codes=()):
             raise SeamEscape("real selectors.DefaultSelector() from a simulated thread")
         return _real_default_selector(*a, **k)
 
+    marshalguard.install()      # allocation seam: absurd container sizes in marshal data fail to allocate (and are recorded)
     _time.sleep = sleep
     _socket.socket.__init__ = sock_init
     _selectors.DefaultSelector = default_selector
@@ -165,6 +167,7 @@ def install(sched, net, uuid_seed=0, line_codes=()):
 def uninstall():
     global _saved
     S.uninstall()
+    marshalguard.uninstall()
     for m in _TIME_MODS:
         m.time = _time
     for m in _THREADING_MODS:
